@@ -15,6 +15,44 @@ def fuzz(target, seconds, **kw):
 
 
 PROPS = {
+    "C18": {
+        "rule": "cases: 1-5 fake containers with generated logs and Docker labels x a log / metric / binary-operation query; every "
+                "case is evaluated under ALL n! completion orders of the concurrent per-container ContainerLogs calls (n<=5, up "
+                "to 120 schedules, two waves for binary operations) x 5 repetitions with a fresh engine (map iteration order) - "
+                "evaluations counts each run; oracle: the order-free canonical text of every result (all streams/series with "
+                "labels, values, timestamps) equals the first one; TestC18Render runs the real cobra command with colour off over "
+                "logs with distinct timestamps under all completion orders x 3 repetitions and requires byte-identical output; a "
+                "reduced run of the same test built with -race fails on any race report; non-trivial = >=3 containers and a "
+                "result with >=2 streams/series of >=2 labels each (render: >=3 containers and >=4 lines); distinct by case hash",
+        "assumptions": [
+            "the harness owns the completion order of the opens, not finer goroutine interleavings; the race detector only judges interleavings that occurred - the weakest claim of the set",
+        ],
+        "replay_test": "TestC18",
+        "quick": [rapid("TestC18", 40),
+                  rapid("TestC18Render", 40, binary="cmdmain", shard_base=200),
+                  rapid("TestC18", 10, race=True, shard_base=100, env={"VERIF_C18_MAXCTRS": "4", "VERIF_C18_REPS": "2"}, allow_short=True)],
+        "thorough": [rapid("TestC18", 150, shards=16, env={"VERIF_C18_REPS": "20"}, timeout=3000),
+                     rapid("TestC18Render", 300, shards=4, binary="cmdmain", shard_base=200, timeout=3000),
+                     rapid("TestC18", 200, race=True, shard_base=100, env={"VERIF_C18_MAXCTRS": "4", "VERIF_C18_REPS": "3"}, timeout=3000)],
+    },
+    "C14": {
+        "rule": "cases: 1-5 fake containers with generated logs x a query shape (log query, log query with limit, range "
+                "aggregation, vector aggregation, binary operation over two selections, with a literal, and six shapes that fail "
+                "after or before opening: unsupported function / invalid template on the right of a binary operation, under an "
+                "aggregation, label_replace, invalid template, invalid JSON path) x a selector picking 0..n containers x one fault "
+                "(list error, open error, transport error at a byte offset, frame body cut, bad timestamp, missing separator, "
+                "daemon error frame - in any container at any position) or none x completion orders of the concurrent opens x a "
+                "fragmentation plan; history invariants at the fake daemon: a fault inside the data the query must read => error; "
+                "fault-free or fault in an unselected container => success and nothing lost; always opened == closed and no read "
+                "after Eval returned; non-trivial = a fault in a stream of a >=2-container selection, or a metric/binary query "
+                "that opened >=2 readers; distinct by case hash",
+        "assumptions": [
+            "a stream cut inside a frame header is a clean end (C03) and is not injected as a fault here",
+            "with a limit a fault behind the limit may legitimately stay unreached: only the close accounting is checked there",
+        ],
+        "quick": [rapid("TestC14", 1000)],
+        "thorough": [rapid("TestC14", 4000, shards=16, timeout=2400)],
+    },
     "C02": {
         "rule": "cases: inventories of 0-7 fake containers (names with/without leading slash, empty Names, aliases, images, states, "
                 "statuses, created times, 0-4 Docker labels with dots/dashes/slashes/blanks/leading digits/multi-byte keys) x a "
